@@ -30,7 +30,7 @@ def main():
         })
     man = {
         'version': 1,
-        'setup_cmd': 'cd /verif/lean && lake build ' + ' '.join(targets),
+        'setup_cmd': '/verif/tools/setup.sh ' + ' '.join(targets),
         'hooks': {
             'guard': 'TBOX_VERIF',
             'enable': 'harness sources are compiled by tools/vlib.py with -DTBOX_VERIF=1 from /repo working tree (no change to the repo build)',
